@@ -30,6 +30,7 @@ static void on_unit(bool isA, bool raw, const char *text, size_t len, bool a, bo
 static cat_return_state policy(struct hcall *h)
 {
         if (h->kind == K_RUN && strcmp(h->cmd->name, "#H") == 0) return CAT_RETURN_STATE_PRINT_CMD_LIST_OK;
+        if (h->kind == K_TEST && h->fsm == FSM_A && strcmp(h->cmd->name, "#T") == 0) return CAT_RETURN_STATE_PRINT_CMD_LIST_OK;
         return (h->kind == K_READ || h->kind == K_TEST) ? CAT_RETURN_STATE_DATA_OK : CAT_RETURN_STATE_OK;
 }
 void chk_describe(FILE *f)
@@ -40,12 +41,12 @@ void chk_describe(FILE *f)
 }
 
 /* descriptor kept outside the world so that it can be rebuilt at several capacities */
-#define MAXC 11
+#define MAXC 12
 static struct dcmd { char name[16]; char desc[24]; bool has_desc, only_test, disable, implicit; int grp; unsigned hmask; int nv; struct { int type, access; size_t size; char name[6]; bool named; } v[6]; } D[MAXC];
 static int ND, NG; static bool gdis[2];
 static void gen_descriptor(void)
 {
-        NG = 1 + (int)rn(2); ND = NG + (int)rn(MAXC - 1 - (unsigned)NG);
+        NG = 1 + (int)rn(2); ND = NG + (int)rn(MAXC - 2 - (unsigned)NG);
         gdis[0] = chance(15); gdis[1] = chance(15);
         for (int i = 0; i < ND; i++) {
                 struct dcmd *d = &D[i]; memset(d, 0, sizeof *d);
@@ -58,6 +59,7 @@ static void gen_descriptor(void)
         }
         /* the help command comes last, in the last group */
         struct dcmd *h = &D[ND]; memset(h, 0, sizeof *h); strcpy(h->name, "#H"); h->hmask = 1; h->grp = NG - 1; ND++;
+        h = &D[ND]; memset(h, 0, sizeof *h); strcpy(h->name, "#T"); h->hmask = 8; h->grp = 0; ND++;       /* the list can also be requested from a test handler */
 }
 static int order[MAXC]; /* world index -> descriptor index */
 static void build(size_t capA, bool shared, size_t capU)
@@ -137,9 +139,9 @@ static void check_test(int wi, int capclass)
                 else if (ngot != 0) viol("C19", "truncated-instead-of-error", "TEST event text of %d bytes does not fit capacity %zu but something was printed", tl, W.capU);
         }
 }
-static void check_list(void)
+static void check_list_via(const char *helpname, const char *request)
 {
-        int hi = widx("#H");
+        int hi = widx(helpname);
         if (hi < 0 || !cmd_enabled(hi)) return;
         char ref[6000], reff[6000], gotf[6000]; size_t longest = 0;
         ref_fmt_list(ref, sizeof ref, "\n", &longest);
@@ -152,8 +154,8 @@ static void check_list(void)
         }
         expect[o] = 0;
         snprintf(note, sizeof note, "command list at command capacity %zu; longest reference line %zu bytes; %s", W.capA, longest, all_fit ? "all lines fit" : "a line does not fit: ERROR expected there");
-        if (!run_line("AT#H")) { inconclusive("no quiescence"); return; }
-        CNT("list_requests");
+        if (!run_line(request)) { inconclusive("no quiescence"); return; }
+        CNT("list_requests"); if (request[3] == 'T') CNT("list_requests_via_test_handler");
         const char *lst = (ngot >= 1 && got[0].type == 'L') ? got[0].text : "";
         int ci = (ngot >= 1 && got[0].type == 'L') ? 1 : 0;
         filter_list(expect, reff, sizeof reff); filter_list(lst, gotf, sizeof gotf);
@@ -162,12 +164,13 @@ static void check_list(void)
         else if (strcmp(code, all_fit ? "OK" : "ERROR") != 0 || ngot != ci + 1) viol("C19", all_fit ? "fitting-list-refused" : "truncated-instead-of-error", "command list must end with %s (got %s, %d units)", all_fit ? "OK" : "ERROR", code, ngot);
         if (!all_fit) CNT("lists_with_a_line_that_does_not_fit"); else CNT("lists_compared");
 }
+static void check_list(void) { check_list_via("#H", "AT#H"); if (!case_failed()) check_list_via("#T", "AT#T=?"); }
 static void cross_check(void)
 {
         static const char *sfx[4] = { "", "?", "=", "=?" };
         for (size_t i = 0; i < W.ncmds && !case_failed(); i++) {
                 const struct cat_command *c = W.cmd[i];
-                if (c->implicit_write || strcmp(c->name, "#H") == 0) continue;         /* a typed implicit-write name turns every suffix into argument text */
+                if (c->implicit_write || c->name[0] == '#') continue;         /* a typed implicit-write name turns every suffix into argument text */
                 for (int f = 0; f < 4 && !case_failed(); f++) {
                         char line[300]; int p = snprintf(line, sizeof line, "AT%s%s", c->name, sfx[f]);
                         if (f == K_WRITE) for (size_t j = 0; j < c->var_num && ref_writable(c); j++) { const struct cat_variable *v = &c->var[j]; p += snprintf(line + p, sizeof line - (size_t)p, "%s%s", j ? "," : "", v->type == CAT_VAR_INT_DEC ? "1" : v->type == CAT_VAR_UINT_DEC ? "1" : v->type == CAT_VAR_NUM_HEX ? "0x1" : v->type == CAT_VAR_BUF_HEX ? "01" : "\"\""); }
@@ -193,7 +196,7 @@ void chk_run_case(uint64_t seed, long c, bool is_sweep)
 {
         (void)seed; (void)c; (void)is_sweep; note[0] = 0;
         gen_descriptor();
-        int target = (int)rn((unsigned)ND - 1);
+        int target = (int)rn((unsigned)ND - 2);
         /* generous build: reference lengths, cross-check */
         build(700, chance(50), 700);
         char ref[800]; int tl = ref_fmt_test(W.cmd[widx(D[target].name)], "\n", ref, sizeof ref);
